@@ -86,6 +86,33 @@ func (d deepInstr) bindUp(g rawGuard, j int) []rawGuard {
 	return []rawGuard{g}
 }
 
+// bindVal: a helper's parameter stands for the argument passed at the call the instruction was reached
+// through (and so on upwards).
+func (d deepInstr) bindVal(v ssa.Value) ssa.Value {
+	v = derefCell(v)
+	for j := len(d.chain); j >= 1; j-- {
+		pa, ok := v.(*ssa.Parameter)
+		if !ok {
+			break
+		}
+		call := callCommon(d.chain[j-1])
+		h := pa.Parent()
+		if call == nil || h == nil {
+			break
+		}
+		found := false
+		for i, q := range h.Params {
+			if q == pa && i < len(call.Args) {
+				v, found = derefCell(call.Args[i]), true
+			}
+		}
+		if !found {
+			break
+		}
+	}
+	return v
+}
+
 // atoms: rawGuards as printable atoms.
 func (d deepInstr) atoms() []Atom {
 	var out []Atom
